@@ -164,7 +164,7 @@ pub open spec fn last_seg_at(b: Seq<u8>, n: int) -> bool {
     0 <= n < strip_end(b) && forall|i: int| n <= i < strip_end(b) ==> #[trigger] b[i] != 0x2f
 }
 
-//@item src/uri.rs :: pub enum Error
+//@item src/uri.rs :: pub enum Error keepderive=Clone,Copy,Debug
 //@item src/uri.rs :: pub enum Scheme keepderive=Clone,Copy
 //@item src/uri.rs :: pub struct Rsync pubfields
 //@item src/uri.rs :: pub struct Https pubfields
@@ -1414,6 +1414,55 @@ pub proof fn lemma_mft_name_joins(base: Rsync, s: Seq<u8>)
     assert(j.last() == s.last());
     assert(strip_end(j) == j.len());
     assert forall|i: int| d.len() <= i < j.len() implies #[trigger] j[i] != 0x2f by { assert(j[i] == s[i - d.len()]); }
+}
+
+// ---- ManifestContent::iter_uris (src/repository/manifest.rs): resolving a listed file against the base ----------
+// `iter_uris` is `self.iter().map(move |item| { .. })`: the closure's block is LIFTED (R13), text unchanged; the
+// captured `base` and `alg` and the closure parameter `item` are the parameters.  Verified: for an entry whose
+// name passed the RFC 9286 check (what the decoder guarantees: units mft_name, mft_entry) `base.join(..).unwrap()`
+// CANNOT panic, and the result is a well-formed URI of the same module that lies directly inside the base
+// directory (its text is the base as a directory followed by the name, which holds no further '/').
+// Assumed glue: Iterator::map applies the closure to every entry the file-list iterator yields.
+#[verifier::external_body]
+pub struct DigestAlgorithm { _o: u8 }
+//@item src/repository/manifest.rs :: pub struct FileAndHash<F, H> pubfields
+impl<F, H> FileAndHash<F, H> {
+    //@fn src/repository/manifest.rs :: impl<F, H> FileAndHash<F, H> :: into_pair
+    //@spec
+        ensures r.0 == self.file, r.1 == self.hash,
+    //@/spec
+    //@end
+}
+//@item src/repository/manifest.rs :: pub struct ManifestHash pubfields
+impl ManifestHash {
+    //@fn src/repository/manifest.rs :: impl ManifestHash :: new
+    //@spec
+        ensures r.hash == hash,
+    //@/spec
+    //@end
+}
+pub struct ManifestContent;
+impl ManifestContent {
+    //@fn src/repository/manifest.rs :: impl ManifestContent :: iter_uris
+    //@lift "self.iter().map(move |item|"
+    //@sig
+    fn resolve_entry(base: &Rsync, alg: DigestAlgorithm, item: FileAndHash<Bytes, Bytes>) -> (Rsync, ManifestHash)
+    //@/sig
+    //@spec
+        requires
+            base.wf(), valid_mft_name(item.file@),
+            base.bytes@.len() + item.file@.len() + 2 <= usize::MAX,
+        ensures
+            r.0.wf(), r.0.module_start == base.module_start, r.0.path_start == base.path_start,
+            r.0.bytes@ == dir(base.bytes@) + item.file@,
+            parent_of(*base, r.0),
+            last_seg_at(r.0.bytes@, dir(base.bytes@).len() as int),
+            r.1.hash == item.hash,
+    //@/spec
+    //@ghost begin
+        proof { lemma_mft_name_joins(*base, item.file@); }
+    //@/ghost
+    //@end
 }
 
 proof fn reach_rsync() {
